@@ -16,6 +16,8 @@ CONSTANTS
   SetOps = {"and", "or", "unless"}
   MatchSets = {{}, {"a"}}
   GroupIncs = {{}, {"b"}}
+  IgnEmpty = FALSE
+  DupLabels = FALSE
   Fixes = {}
   DBSeries = 1
   DBA = {"x", "y"}
